@@ -23,6 +23,7 @@ type replayCase struct {
 	Harness string            `json:"harness"`
 	Inputs  map[string]string `json:"inputs"`
 	Params  map[string]int    `json:"params"`
+	Labels  []string          `json:"labels"`
 }
 
 type assertFail struct{ label string }
@@ -123,6 +124,17 @@ func Assume(c bool) {
 }
 
 func Assert(c bool, label string) {
+	if cur != nil && len(cur.Labels) > 0 {
+		ok := false
+		for _, p := range cur.Labels {
+			if strings.HasPrefix(label, p) {
+				ok = true
+			}
+		}
+		if !ok {
+			return
+		}
+	}
 	if !c {
 		panic(assertFail{label})
 	}
